@@ -60,6 +60,8 @@ def gen_world(rng, fmt=None, apdep=None, n_models=(1, 8), n_ap=(1, 5), n_wav=(5,
     w['ext_n'] = rng.choice([3, 8, 40])
     # units in which the user states aperture radii and the distance range (any angle / length unit is legal)
     w['ap_unit'] = rng.choice(['arcsec', 'arcsec', 'arcmin', 'deg', 'mas'])
+    # filters built in memory, or read with Filter.read from two-column text files and normalised by the user
+    w['filters_from_file'] = rng.random() < 0.3
     w['d_unit'] = rng.choice(['kpc', 'kpc', 'pc', 'cm', 'lyr'])
     # one model may have exactly zero flux where one filter is sensitive (a legal grid: sedfitter treats a zero
     # convolved flux as 'invalid'); its fits come out non-finite and sit among finite ones in every result
@@ -174,14 +176,25 @@ class World(object):
         from astropy import units as u
         from sedfitter.filter import Filter
         out = []
+        fdir = getattr(self, 'filter_dir', None) if self.spec.get('filters_from_file') else None
         for j, fs in enumerate(self.fspec):
             if subset is not None and j not in subset:
                 continue
-            f = Filter()
-            f.name = fs['name']
-            f.central_wavelength = fs['center'] * u.micron
-            f.nu = fs['nu'].copy() * u.Hz
-            f.response = fs['r'].copy()
+            if fdir is not None:
+                os.makedirs(fdir, exist_ok=True)
+                path = os.path.join(fdir, fs['name'] + '.txt')
+                with open(path, 'w') as fh:
+                    fh.write('# wav = %r\n' % fs['center'])
+                    for nu_, r_ in zip(fs['nu'], fs['r']):
+                        fh.write('%r %r\n' % (float(299792458.0e6 / nu_), float(r_)))
+                f = Filter.read(path)
+                f.normalize()
+            else:
+                f = Filter()
+                f.name = fs['name']
+                f.central_wavelength = fs['center'] * u.micron
+                f.nu = fs['nu'].copy() * u.Hz
+                f.response = fs['r'].copy()
             out.append(f)
         return out
 
@@ -198,6 +211,7 @@ class World(object):
         spec = self.spec
         fmt = fmt or spec['format']
         gz = spec['gz'] if gz is None else gz
+        self.filter_dir = os.path.join(os.path.dirname(d.rstrip('/')), 'filter_files')
         aside = None
         if keep_convolved and os.path.isdir(os.path.join(d, 'convolved')):
             aside = d.rstrip('/') + '.convolved-aside'
